@@ -6,6 +6,7 @@ Driver for C19 (world-splitting of findall/all). One output line per input line.
   select ((term node) (term node) ...)      → all pairs of `_select_sublist` in generation order
   all <0|1> ((term node) ...)               → the pairs `_builtin_all` processes (allow_none = 0|1)
   findall ((term node) ...)                 → the pairs `_builtin_findall_base` processes
+  conj (node node ...)                      → `F` if `conjIsFalse` (compacting `add_and` returns FALSE), else `ok`
 
 node ::= T | F | signed integer (0 is read as TRUE).  Output: `(((t1 t2) (n1 n2 T)) ((t1) (n1 -n2 T)) ...)`.
 -/
@@ -43,6 +44,10 @@ def step (s : Unit) (line : String) : Unit × String :=
   | some [.atom "findall", l] =>
     (match parseElems l with
      | some lst => (s, renderPairs (findallPairs lst))
+     | none => (s, "bad-op"))
+  | some [.atom "conj", .list ns] =>
+    (match ns.mapM (fun e => match e with | .atom a => parseNode a | _ => none) with
+     | some nodes => (s, if conjIsFalse nodes then "F" else "ok")
      | none => (s, "bad-op"))
   | some [.atom "all", .atom a, l] =>
     (match parseElems l, a with
